@@ -177,6 +177,19 @@ def emptyInfo : Info :=
   { width := 0, height := 0, extended := false, animation := false, isLossy := false, hasAlpha := false,
     numFrames := 0, loopCount := 1, loopDuration := 0, background := [0, 0, 0, 0], chunks := [], nextFrameStart := 0 }
 
+/-- the `VP8L` arm of `read_data`: signature byte, then the 32-bit header word -/
+def vp8lInfo (start size : Nat) : M Info := fun r =>
+  match readU8 r with
+  | .error e => .error e
+  | .ok (sig, r) =>
+  if sig != 0x2f then .error .losslessSignatureInvalid else
+  match readLE 4 r with
+  | .error e => .error e
+  | .ok (header, r) =>
+  if header / 2 ^ 29 != 0 then .error .versionNumberInvalid else
+  .ok ({ emptyInfo with width := header % 2 ^ 14 + 1, height := header / 2 ^ 14 % 2 ^ 14 + 1,
+                        hasAlpha := header / 2 ^ 28 % 2 == 1, chunks := [(VP8L, (start, start + size))] }, r)
+
 /-- `read_data` (= `WebPDecoder::new`) -/
 def readData : M Info := fun r =>
   match readChunkHeader r with
@@ -210,16 +223,7 @@ def readData : M Info := fun r =>
     .ok ({ emptyInfo with width := w % 2 ^ 14, height := h % 2 ^ 14, isLossy := true,
                           chunks := [(VP8, (start, start + size))] }, r)
   else if chunk == VP8L then
-    match readU8 r with
-    | .error e => .error e
-    | .ok (sig, r) =>
-    if sig != 0x2f then .error .losslessSignatureInvalid else
-    match readLE 4 r with
-    | .error e => .error e
-    | .ok (header, r) =>
-    if header / 2 ^ 29 != 0 then .error .versionNumberInvalid else
-    .ok ({ emptyInfo with width := header % 2 ^ 14 + 1, height := header / 2 ^ 14 % 2 ^ 14 + 1,
-                          hasAlpha := header / 2 ^ 28 % 2 == 1, chunks := [(VP8L, (start, start + size))] }, r)
+    vp8lInfo start size r
   else if chunk == VP8X then
     match readU8 r with
     | .error e => .error e
